@@ -167,8 +167,12 @@ fn check_production(ctx: &Ctx, sim: &Sim, rt: &tokio::runtime::Runtime, p: usize
     let (r, requested, odd, list_requests) = production_run(sim, rt, p, c);
     st.evaluations += 1;
     *st.counters.entry("simulator_requests".into()).or_insert(0) += requested.len() as u64;
-    let wit = || json!({"op": "production", "newest_directory": p + 1, "populated": c});
-    let cls = shape_class(999, p, c);
+    let clock = crate::clock::thread_now_ms();
+    let wit = || json!({"op": "production", "newest_directory": p + 1, "populated": c, "now_ms": clock});
+    let cls = match clock {
+        Some(_) => format!("{}:wall_clock_moved", shape_class(999, p, c)),
+        None => shape_class(999, p, c),
+    };
     let mut conforms = false;
     match r {
         Caught::Panic(pn) => ctx.fail("latest_volume:panic", || pn.clone(), wit),
@@ -274,6 +278,15 @@ pub fn run(ctx: &'static Ctx) -> (&'static str, Value, Vec<&'static str>) {
         s3.nontrivial(format!("prod{p}/{c}").as_bytes());
         s3.dim("production_populated", c);
     }
+    // wall-clock dimension: the answer is a function of the bucket alone. The thread's wall clock
+    // is moved around the newest directory's upload time (and decades away from it).
+    for (p, c) in [(0usize, 1usize), (300, 301), (998, 999), (1, 999), (499, 3), (120, 500)] {
+        let newest_ms = BASE_MS + c as i64 * 60_000 + 5_000;
+        for delta in [-20 * 365 * 86_400_000i64, -86_400_000, -900_000, -90_000, -61_000, -1_000, 0, 1_000, 86_400_000, 80 * 365 * 86_400_000] {
+            crate::clock::with_thread_now_ms(newest_ms + delta, || check_production(ctx, &sim, &rt, p, c, &mut s3));
+            s3.count("production_runs_with_wall_clock_moved", 1);
+        }
+    }
     if (conforming as usize) < states.len() {
         // degraded mode: production no longer replays the search's probe trace, so the search-level
         // sweep says nothing about it; explore many more bucket states directly (ascending newest
@@ -348,7 +361,14 @@ pub fn replay(ctx: &'static Ctx, case: &Value) {
             let rt = runtime();
             let p = case["newest_directory"].as_u64().unwrap_or(1) as usize - 1;
             let c = case["populated"].as_u64().unwrap_or(0) as usize;
-            check_production(ctx, &sim, &rt, p, c, &mut st);
+            match case["now_ms"].as_i64() {
+                Some(ms) => {
+                    crate::clock::with_thread_now_ms(ms, || check_production(ctx, &sim, &rt, p, c, &mut st));
+                }
+                None => {
+                    check_production(ctx, &sim, &rt, p, c, &mut st);
+                }
+            }
         }
         _ => machinery("C15 replay: unknown op"),
     }
